@@ -16,7 +16,8 @@ NAME_POOL = ['nothing', 'note', 'order', 'android', 'inner', 'tor', 'asx', 'fora
              'NANO', 'Trueish', 'within1', 'nosy', 'untilx', 'iffy', 'insert', 'total', 'some1', 'causesx', 'globally_',
              'afterwards', 'Falsehood', 'implies_', 'a1', '_x', 'tomorrow', 'inf', 'pi', 'no_', 'requires2', 'ms', 's', 'hz']
 CHAN_POOL = ['/cmd_vel', 'nothing', 'ns/topic_1', '~private', 'after_x', 'orbit', 'some_topic', 'untilted', 'no_go', 'E', 'PI']
-NUM_POOL = ['0', '2', '10', '1.5', '0.5', '.5', '1e3', '3.25', '100', '1.0', '7']
+NUM_POOL = ['0', '2', '10', '1.5', '0.5', '.5', '1e3', '3.25', '100', '1.0', '7', '2147483648', '9007199254740993',
+            '18446744073709551615', '1700000000123456789', '0.1', '12.', '1E2', '123456789.25']
 
 # reduced, class-closed alphabet for the accept/reject (set complement) side
 REJ_SIGMA = ['a', '@v', '1', 'True', 'not', 'and', '=', '<', '+', '-', '(', ')', '{', '}', '[', ']', 'to', 'in', 'forall', ':', ',', '.', 'abs', '**']
@@ -27,6 +28,19 @@ def rej_params(start, maxtok):
     return dict(Start=start, MaxTok=maxtok, IfOps=[], OrOps=[], AndOps=['and'], NotOps=['not'], Quants=['forall'], RelOps=['=', '<', 'in'],
                 AddOps=['+', '-'], MulOps=[], PowOps=['**'], NegOps=['-'], Parens=True, Bools=['True'], Strs=[], Nums=['1'], Consts=[],
                 CallFuns=['abs'], SetLens=[1, 2], RangeL=['['], RangeR=[']'], Names=['a'], Vars=['@v'], Fields=['a'], QVars=['a'])
+
+
+def spelled_value(sp):
+    """Value of a number spelling, read as exact decimal notation (independent of the parser's int()/float())."""
+    from fractions import Fraction
+    from harness.project import LIM, num_value
+    if sp.isdigit():
+        v = int(sp)
+        return ['n', v, 1] if abs(v) <= LIM else ['x', repr(v)]
+    fr = Fraction(sp)
+    if abs(fr.numerator) <= LIM and fr.denominator <= LIM:
+        return ['n', fr.numerator, fr.denominator]
+    return num_value(float(fr))
 
 
 def permissive_member(toks, lang):
@@ -87,9 +101,7 @@ def run(replay=None):
             lits = dict(grammar.STD_LITS)
             if rnd.random() < 0.4:
                 sp = rnd.choice(NUM_POOL)
-                from fractions import Fraction
-                fr = Fraction(sp)
-                lits['1'] = (sp, ['n', fr.numerator, fr.denominator])
+                lits['1'] = (sp, spelled_value(sp))
             toks, exp = render.substitute(s, names=names, chans=chans, lits=lits)
             exp = grammar.fix_var_names(exp)
             texts = [render.layout(toks, 0), render.layout(toks, 1, rnd)]
